@@ -166,6 +166,32 @@ def NS.postAuthReply (st : NS) (id : Nat) : Option Reply :=
     | none => none
     | some peer => some (st.checkSession peer (s.conn.getD 0))
 
+/-- `ConnectionOpened` / `ConnectionOpenedExternal`: a new entry of `node_sessions` under the
+fresh actor id of the spawned `NodeSession`, nothing known about the peer yet -/
+def NS.open (st : NS) (id : Nat) (isServer : Bool) : NS :=
+  { st with sessions := st.sessions ++ [⟨id, isServer, none, none, false⟩] }
+
+/-- `NodeServer::handle_supervisor_evt` for `ActorTerminated` / `ActorFailed` of a session:
+`node_sessions.remove`, `connection_ids.remove`, `authenticated_sessions.remove` -/
+def NS.close (st : NS) (id : Nat) : NS :=
+  { st with sessions := st.sessions.filter (·.id != id) }
+
+def NS.closeAll (st : NS) (ids : List Nat) : NS := ids.foldl NS.close st
+
+/-- the sessions that claim (`register_session`) the peer name `peer` -/
+def NS.sessionsOf (st : NS) (peer : String) : List Nat :=
+  (st.sessions.filter (·.peerName == some peer)).map (·.id)
+
+/-- what is left of the bookkeeping: keys of `node_sessions`, of `connection_ids` (one entry
+per registered session) and `authenticated_sessions` -/
+def NS.residue (st : NS) : List Nat × List Nat × List Nat :=
+  (st.sessions.map (·.id), (st.sessions.filter (·.peerName.isSome)).map (·.id),
+   (st.sessions.filter (·.auth)).map (·.id))
+
+/-- run-time oracle: nothing of a closed session is left -/
+def residueOk (closed : List Nat) (ns ids auth : List Nat) : Bool :=
+  closed.all fun c => !ns.contains c && !ids.contains c && !auth.contains c
+
 def Reply.continues : Reply → Bool
   | .noOther => true
   | .thisContinues => true
@@ -231,11 +257,7 @@ end Election
 
 namespace Election
 
-/-- the `ActorTerminated` / `ActorFailed` arm of `NodeServer::handle_supervisor_evt` for a session:
-its entry leaves `node_sessions`, `connection_ids` and `authenticated_sessions` -/
-def NS.close (st : NS) (id : Nat) : NS := { st with sessions := st.sessions.filter (·.id != id) }
-
-/-- `ConnectionOpened{,External}`: a new, nameless, unauthenticated entry -/
+/-- `ConnectionOpened{,External}`: a new, nameless, unauthenticated entry (= `NS.open`) -/
 def NS.opened (st : NS) (id : Nat) (isServer : Bool) : NS :=
   { st with sessions := st.sessions ++ [⟨id, isServer, none, none, false⟩] }
 
